@@ -430,6 +430,9 @@ func genCronHistory(r *rng.R, length int, badMeta bool) sim.History {
 			h.Ops = append(h.Ops, "stop")
 		case w < 92:
 			g.now = g.now.Add(time.Duration(1+r.Intn(6)) * time.Minute)
+			if r.Chance(1, 3) { // a clock reading between two milliseconds (timers are armed for head - now, not head - trunc(now))
+				g.now = g.now.Add(time.Duration(r.Intn(1_000_000_000)))
+			}
 			h.Ops = append(h.Ops, "adv "+proto.Time(g.now))
 		default:
 			h.Ops = append(h.Ops, "consume")
